@@ -562,8 +562,11 @@ class Plugin:
             # all sources are requested all the way (including the final
             # Stopiteration), as required by lazy-mode processing requires
             for d in iters.keys():
-                if self._fetch_chunk(d, iters):
-                    raise RuntimeError(f"Plugin {d} terminated without fetching last {d}!")
+                while self._fetch_chunk(d, iters):
+                    # Trailing zero-duration chunks are allowed (they cannot contain data);
+                    # anything else means the dependencies do not end together.
+                    if self.input_buffer[d].duration > 0:
+                        raise RuntimeError(f"Plugin {d} terminated without fetching last {d}!")
 
             # This can happen especially in time range selections
             if hasattr(self.save_when, "values"):
